@@ -161,9 +161,84 @@ func vC09StopDelete(rc *runCtx) {
 	}
 }
 
+// vC09ChosenFolder: no hostile name at all; what is odd is the chosen folder. Either its name contains a '$' (a
+// literal character in a directory name: files go into that directory, nowhere else), or no folder is configured
+// and no dialog program exists to ask for one (the download is refused: nothing is created anywhere, least of
+// all in the client's working directory).
+func vC09ChosenFolder(rc *runCtx) {
+	tp := rc.tape
+	cfg := vDrawConfig(tp, false)
+	cfg.upload, cfg.timeout, cfg.trigVersion = false, 5, ""
+	sandbox := filepath.Join(rc.dir, "sandbox")
+	kind := []string{"dollar-name", "no-folder-no-dialog"}[tp.Draw("c09f.kind", 2)]
+	leaf := []string{"$incoming", "in$box", "${downloads}", "$HOME", "a$"}[tp.Draw("c09f.leaf", 5)]
+	dst := filepath.Join(sandbox, "client", leaf)
+	src := filepath.Join(rc.dir, "src")
+	os.MkdirAll(dst, 0755)
+	os.MkdirAll(filepath.Join(sandbox, "client", "in"), 0755) // what "in$box" becomes when $box is expanded away
+	vWriteFile(filepath.Join(sandbox, "canary.txt"), []byte("canary outside the destination"))
+	spec := vGenSources(rc, src, 2, cfg.dirMode, 20000, !cfg.overwrite)
+	o := cfg.opts()
+	o.srcPaths, o.dstDir = spec.paths, dst
+	o.noDefaultPath = kind == "no-folder-no-dialog"
+	o.profile = transportProfile{segPm: 200, coalPm: 100}
+	o.simCap = 10 * time.Minute
+	rc.res.ClassKey = "chosen-folder " + kind + " " + cfg.key()
+	rc.res.Scenario["config"] = cfg.key()
+	rc.res.Scenario["chosen_folder"] = map[string]string{"dollar-name": dst, "no-folder-no-dialog": "(none, and no dialog program)"}[kind]
+	rc.fault("odd-chosen-folder-" + kind)
+	before := vSnapshot(sandbox)
+	wd, _ := os.Getwd()
+	wdBefore := map[string]bool{}
+	if ents, err := os.ReadDir(wd); err == nil {
+		for _, e := range ents {
+			wdBefore[e.Name()] = true
+		}
+	}
+	x := newXferWorld(rc, o)
+	x.start()
+	rc.w.Run(x.finished)
+	if rc.w.StepCap {
+		return
+	}
+	rep := x.report()
+	if kind == "dollar-name" {
+		rel, _ := filepath.Rel(sandbox, dst)
+		vCheckContained(rc, before, sandbox, rel, "(no hostile name: the chosen folder is "+leaf+")")
+		if rc.res.Class == "ok" {
+			vCheckFidelity(rc, x, rep, vSnapshot(filepath.Join(rc.dir, "nonexistent")), true)
+			if rc.res.Class == "violation" {
+				rc.res.Sig = strings.Replace(rc.res.Sig, "C01:", "C09:chosen-folder:", 1)
+			}
+		}
+	} else {
+		if rep.clientOK || rep.serverOK {
+			rc.violate("escape", "C09:saved-without-a-folder", "no download folder was configured and no dialog program exists, yet the download was reported as saved (client ok=%v, server ok=%v)", rep.clientOK, rep.serverOK)
+			return
+		}
+		if ents, err := os.ReadDir(wd); err == nil {
+			for _, e := range ents {
+				if !wdBefore[e.Name()] && !strings.HasSuffix(e.Name(), ".progress") {
+					rc.violate("escape", "C09:created-in-working-directory", "no download folder was chosen, yet %q appeared in the client's working directory %q", e.Name(), wd)
+					os.RemoveAll(filepath.Join(wd, e.Name()))
+					return
+				}
+			}
+		}
+		vCheckContained(rc, before, sandbox, filepath.Join("client", "none-chosen"), "(no folder chosen)")
+	}
+	if rc.res.Class == "ok" {
+		rc.res.Nontrivial = true
+	}
+}
+
 func vScenarioC09(rc *runCtx) {
 	if rc.param("mode", "system") == "archive" {
 		vC09Archive(rc)
+		return
+	}
+	if rc.tape.Bool("c09.chosenfolder", 100) {
+		vC09ChosenFolder(rc)
 		return
 	}
 	if rc.tape.Bool("c09.stopdelete", 100) {
